@@ -259,6 +259,15 @@ def run_job(doc, log):
         maybe_fail("point")
         a = np.linalg.norm(field[0].values, axis=1) + 0.25 * len(custom["point"])
         custom["point"].append(a.copy())
+        # the data function works with the public post-processing helpers and treats what they
+        # return as its own arrays (converts units, adds the coordinates, ... in place)
+        x = fem.math.displacement(field)
+        x *= 1000.0
+        x += 1.0
+        Fl = fem.math.deformation_gradient(field)
+        Fl *= 0.0
+        El = fem.math.strain(field)
+        El += 1.0
         return a
 
     def my_cell(field, substep):
@@ -266,6 +275,8 @@ def run_job(doc, log):
         F = field.extract()[0]
         a = np.linalg.det(np.moveaxis(F, (0, 1), (-2, -1))).mean(0)
         custom["cell"].append(a.copy())
+        for Fk in field.extract():
+            Fk *= 0.0  # extracted without out=: the caller's own arrays
         return [a]
 
     point_data = {"Nodal Norm": my_point} if (opts.get("custom_point") or any(f["where"] == "point" for f in data_fault)) else None
